@@ -314,3 +314,25 @@ Proof.
   - intros r0 e r1. apply GR_rhandle.
   - intros r0 e r1. apply GR_flush.
 Qed.
+
+(* the value of a handled write of a check action obeys clause 8 *)
+Lemma chk_write_value sh s sc g i stt n ok r s' :
+  G s -> h_write sh s (OAct (AChk sc g i)) stt n ok r = Some s' -> act_ok (wcell stt n ok).
+Proof.
+  intros [Gp Gb] H. unfold h_write in H. destruct (negb (obj_in_shape sh (OAct (AChk sc g i)))); [discriminate|].
+  apply option_map_some in H as (s1 & H & _). cbn [h_write_obj] in H. unfold h_write_act in H.
+  assert (Hv : forall gg x, gok gg -> g_final gg i stt n ok = Some x -> act_ok (wcell stt n ok)).
+  { intros gg x Hg Hf. destruct (g_final_value _ _ _ _ _ _ Hg Hf) as [Hn [[-> ->]|[-> ->]]].
+    - right. right. left. repeat split; auto.
+    - right. right. right. repeat split; auto. }
+  destruct stt; try discriminate.
+  - left. reflexivity.
+  - destruct sc as [|b].
+    + unfold p_chk_final in H. destruct (g_final (tget (s_g s) g) i Completed n ok) eqn:E; [|discriminate]. exact (Hv _ _ (Gp g) E).
+    + destruct (cur_block sh s b); [|discriminate]. apply option_map_some in H as (b' & H & _). unfold b_chk_final in H.
+      destruct (g_final (tget (b_g (s_b s)) g) i Completed n ok) eqn:E; [|discriminate]. exact (Hv _ _ (Gb g) E).
+  - destruct sc as [|b].
+    + unfold p_chk_final in H. destruct (g_final (tget (s_g s) g) i Failed n ok) eqn:E; [|discriminate]. exact (Hv _ _ (Gp g) E).
+    + destruct (cur_block sh s b); [|discriminate]. apply option_map_some in H as (b' & H & _). unfold b_chk_final in H.
+      destruct (g_final (tget (b_g (s_b s)) g) i Failed n ok) eqn:E; [|discriminate]. exact (Hv _ _ (Gb g) E).
+Qed.
